@@ -5,7 +5,8 @@ EXTENDS Elements, Json
 
 CONSTANTS MaxName, Part      \* Part \in {"names", "conv"}
 VARIABLE case
-NameAlpha == {"a", "Z", "1", "-", "_", " "}
+\* <U212A> stands for the Kelvin sign: a letter to str.isalpha() and to case-insensitive matching, not to [A-Za-z]
+NameAlpha == {"a", "Z", "1", "-", "_", " ", "<U212A>"}
 Names == UNION { [1..k -> NameAlpha] : k \in 0..MaxName }
 Prefixes == {<<>>, <<"-">>, <<"-", "-">>}
 
